@@ -87,6 +87,7 @@ def run(prog, chk):
     builder_close_table(prog, chk)
     parallel_lists_table(prog, chk)
     level_update_table(prog, chk)
+    append_chain_table(prog, chk)
     chk.explanation = (
         "(R4) for every function of the 40 units and every pointer local that receives an object from a producer (derived from the callee's "
         "own body: its out-parameter only ever carries a fresh allocation, a new reference or another producer's result), an allocator or "
@@ -579,7 +580,13 @@ def level_update_table(prog, chk, rule="C19.levelupdate", only_success=False):
                    "(decision table over failure points)" if not only_success else
              "the requested level is written into the link AND into the TLV element that encodes the same chain, whatever the order of the reply's elements", floor=1 if only_success else 5)
     fn = prog.fn("updateLevelCorrection", "signature_builder.c")
-    sp, lp, cp = [p["n"] for p in fn.params]
+    sp = fn.params[0]["n"]
+    cps = [p["n"] for p in fn.params if "(*" in (p.get("t") or "")]
+    lps = [p["n"] for p in fn.params if "uint64" in (p.get("t") or "") and "(*" not in (p.get("t") or "")]
+    if len(cps) != 1 or len(lps) != 1:
+        raise AnalysisBroken("updateLevelCorrection: level / calculator parameters not recognised")
+    cp, lp = cps[0], lps[0]
+    extra = {p["n"]: 0 for p in fn.params if p["n"] not in (sp, cp, lp)}      # e.g. the position of the chain: the first one
     steps = [None, "KSI_Integer_new", "KSI_HashChainLink_setLevelCorrection", "KSI_TLV_new", "KSI_TlvTemplate_construct", "KSI_TLV_getNestedList",
              "KSI_AggregationHashChain_new", "KSI_TlvTemplate_extract", "KSI_TLV_replaceNestedTlv"]
     # the TLV image lists its 0x801 elements in the order of the server's reply: the element to replace is the one that encodes the
@@ -639,6 +646,7 @@ def level_update_table(prog, chk, rule="C19.levelupdate", only_success=False):
                 return 0
             return sm(I, p, node, name, args, callee_val)
         inputs = {sp: Ptr("SIG"), lp: 3, cp: Ptr("CALC"), "SIG->ctx": Ptr("ctx"), "SIG->aggregationChainList": Ptr("CHAINS"), "SIG->baseTlv": Ptr("BASE")}
+        inputs.update(extra)
         I = Interp(fn, inputs=inputs, call_model=model, on_unknown="stop", prog=prog, loop_bound=6)
         paths = I.run()
         chk.paths += len(paths)
@@ -657,3 +665,155 @@ def level_update_table(prog, chk, rule="C19.levelupdate", only_success=False):
             what = "expected an error with the link's level as it was and the TLV untouched; source: status %s, levels given to the link %s, replaced %s" % (
                 hex(q.ret) if isinstance(q.ret, int) else q.ret, sets, replaced)
         chk.ob(rule, inst, ok, what, loc=fn.loc(), fn=fn, nontrivial=fail is not None)
+
+
+def append_chain_table(prog, chk):
+    """Putting a local aggregation chain in front of a signature (KSI_SignatureBuilder_appendAggregationChain -> appendAggregationChain):
+    the builder's signature and the CALLER's chain object are changed in several steps - the chain's height is taken out of the
+    signature's first level correction, the chain gets the signing time and a chain index, is inserted into the chain list and its TLV
+    is appended.  Evaluated with each step failing in turn: after an error return everything is as before the call, so that the call
+    can be repeated with the same objects (and the caller's chain can still be used elsewhere)."""
+    from ksirules.interp import TOP, Interp, Ptr, inline_model, list_overrides, succeed_model
+    from ksirules.model import lvalue_key, strip
+    chk.rule("C19.append", "prepending a chain to a signature is all-or-nothing for the signature and for the caller's chain (decision table over failure points)", floor=8)
+    fn = prog.fn("KSI_SignatureBuilder_appendAggregationChain", "signature_builder.c")
+    bp, ap = fn.params[0]["n"], fn.params[1]["n"]
+    steps = [None, "KSI_AggregationHashChain_aggregate", "subRootLevel", "KSI_Signature_getSigningTime", "KSI_AggregationHashChain_setAggregationTime", "addChainIndex",
+             "KSI_IntegerList_insertAt", "KSI_AggregationHashChainList_insertAt", "KSI_TLV_new", "KSI_TlvTemplate_construct", "KSI_TLV_appendNestedTlv"]
+    for fail in steps:
+        S = {"level": 5, "time": Ptr("OLDTIME"), "index": 0, "index_len": 0, "chains": ["CUR"], "tlvs": 1, "cur_index": [Ptr("I0"), Ptr("I1")]}
+        reached = []
+
+        def failing(name):
+            if fail == name:
+                reached.append(name)
+                return True
+            return False
+
+        def aggregate(I, p, node, args):
+            if failing("KSI_AggregationHashChain_aggregate"):
+                return 0x200
+            a2 = strip(node["a"][2])
+            if isinstance(a2, dict) and a2.get("k") == "un":
+                I.write(p, lvalue_key(a2["e"], I.fn), 2)
+            return 0
+
+        def level(sign):
+            def f(I, p, node, args):
+                if args[0] != Ptr("SIG"):
+                    return TOP
+                name = "subRootLevel" if sign < 0 else "addRootLevel"
+                if failing(name):
+                    return 0x200
+                if isinstance(args[-1], int):
+                    S["level"] += sign * args[-1]
+                return 0
+            return f
+
+        def out(name, idx, val):
+            def f(I, p, node, args):
+                if failing(name):
+                    return 0x200
+                a = strip(node["a"][idx])
+                I.write(p, lvalue_key(a["e"], I.fn), val() if callable(val) else val)
+                return 0
+            return f
+
+        def settime(I, p, node, args):
+            if args[0] != Ptr("AGGR"):
+                return TOP
+            if failing("KSI_AggregationHashChain_setAggregationTime"):
+                return 0x200
+            S["time"] = args[1]
+            return 0
+
+        def addindex(I, p, node, args):
+            if failing("addChainIndex"):
+                return 0x200
+            S["index"], S["index_len"] = Ptr("NEWINDEX"), 1
+            return 0
+
+        def setindex(I, p, node, args):
+            if args[0] == Ptr("AGGR"):
+                S["index"] = args[1]
+                S["index_len"] = 0 if args[1] == 0 else S["index_len"]
+            return 0
+
+        def int_insert(I, p, node, args):
+            if args[0] != Ptr("NEWINDEX"):
+                return TOP
+            if failing("KSI_IntegerList_insertAt") and S["index_len"] >= 2:      # the second of the two insertions
+                return 0x200
+            S["index_len"] += 1
+            return 0
+
+        def int_remove(I, p, node, args):
+            if args[0] == Ptr("NEWINDEX") and S["index_len"] > 0:
+                S["index_len"] -= 1
+                return 0
+            return TOP
+
+        def chain_insert(I, p, node, args):
+            if args[0] != Ptr("CHAINS"):
+                return TOP
+            if failing("KSI_AggregationHashChainList_insertAt"):
+                return 0x200
+            S["chains"].insert(args[1] if isinstance(args[1], int) else 0, "AGGR")
+            return 0
+
+        def chain_remove(I, p, node, args):
+            if args[0] == Ptr("CHAINS") and isinstance(args[1], int) and 0 <= args[1] < len(S["chains"]):
+                del S["chains"][args[1]]
+                return 0
+            return TOP
+
+        def tlv_append(I, p, node, args):
+            if failing("KSI_TLV_appendNestedTlv"):
+                return 0x200
+            S["tlvs"] += 1
+            return 0
+        length, element_at = list_overrides({"LINKS": [Ptr("L0"), Ptr("L1")], "CURINDEX": S["cur_index"]})
+
+        def chain_at(I, p, node, args):
+            if args[0] != Ptr("CHAINS") or not isinstance(args[1], int) or not (0 <= args[1] < len(S["chains"])):
+                return TOP
+            I.write(p, lvalue_key(strip(node["a"][2])["e"], I.fn), Ptr(S["chains"][args[1]]))
+            return 0
+        ov = {"KSI_AggregationHashChain_aggregate": aggregate, "subRootLevel": level(-1), "addRootLevel": level(+1),
+              "KSI_AggregationHashChain_getChain": out("-", 1, Ptr("LINKS")), "KSI_HashChainLinkList_length": length,
+              "KSI_Signature_getSigningTime": out("KSI_Signature_getSigningTime", 1, Ptr("SIGNTIME")), "KSI_Integer_ref": lambda I, p, n, a: a[0],
+              "KSI_AggregationHashChain_ref": lambda I, p, n, a: a[0], "KSI_AggregationHashChain_setAggregationTime": settime,
+              "KSI_AggregationHashChain_getAggregationTime": out("-", 1, lambda: S["time"]),
+              "KSI_AggregationHashChainList_length": lambda I, p, n, a: len(S["chains"]) if a[0] == Ptr("CHAINS") else TOP,
+              "KSI_AggregationHashChain_getChainIndex": lambda I, p, n, a: (I.write(p, lvalue_key(strip(n["a"][1])["e"], I.fn),
+                                                                                     S["index"] if a[0] == Ptr("AGGR") else Ptr("CURINDEX")), 0)[1],
+              "addChainIndex": addindex, "KSI_AggregationHashChain_setChainIndex": setindex, "KSI_AggregationHashChainList_elementAt": chain_at,
+              "KSI_IntegerList_length": lambda I, p, n, a: (2 if a[0] == Ptr("CURINDEX") else (S["index_len"] if a[0] == Ptr("NEWINDEX") else TOP)),
+              "KSI_IntegerList_elementAt": element_at, "KSI_IntegerList_insertAt": int_insert, "KSI_IntegerList_remove": int_remove,
+              "KSI_IntegerList_free": lambda I, p, n, a: TOP, "KSI_AggregationHashChainList_insertAt": chain_insert, "KSI_AggregationHashChainList_remove": chain_remove,
+              "KSI_TLV_new": out("KSI_TLV_new", 4, Ptr("NEWTLV")), "KSI_TlvTemplate_construct": lambda I, p, n, a: 0x200 if failing("KSI_TlvTemplate_construct") else 0,
+              "KSI_TLV_appendNestedTlv": tlv_append, "KSI_TLV_getNestedList": out("-", 1, Ptr("NESTED")), "KSI_TLVList_length": lambda I, p, n, a: S["tlvs"],
+              "KSI_TLVList_remove": lambda I, p, n, a: (S.__setitem__("tlvs", S["tlvs"] - 1), 0)[1],
+              "KSI_TLV_free": lambda I, p, n, a: TOP, "KSI_Integer_free": lambda I, p, n, a: TOP, "KSI_AggregationHashChain_free": lambda I, p, n, a: TOP}
+        helpers = {n_ for n_ in ("appendAggregationChain", "appendAggregationChainAtLevel") if prog.functions.get(n_)}
+        inputs = {bp: Ptr("B"), ap: Ptr("AGGR"), "B->ctx": Ptr("ctx"), "B->sig": Ptr("SIG"), "B->aggrStartLevel": 0, "SIG->ctx": Ptr("ctx"), "SIG->aggregationChainList": Ptr("CHAINS"),
+                  "SIG->baseTlv": Ptr("BASE")}
+        I = Interp(fn, inputs=inputs, call_model=inline_model(prog, helpers, fallback=succeed_model(prog, ov)), on_unknown="stop", prog=prog, loop_bound=8)
+        paths = I.run()
+        chk.paths += len(paths)
+        inst = "appendAggregationChain[%s]" % ("nothing fails" if fail is None else fail + " fails")
+        if len(paths) != 1 or paths[0].undetermined or paths[0].ret is TOP:
+            raise AnalysisBroken("KSI_SignatureBuilder_appendAggregationChain: evaluation not determined for %s: %s" % (inst, [q.undetermined[:1] for q in paths]))
+        if fail is not None and not reached:
+            continue            # no such step in this version
+        q = paths[0]
+        state = "level correction %d, chain's time %s, chain's index %s (%d), chains %s, TLV elements %d" % (
+            S["level"], S["time"], S["index"], S["index_len"], S["chains"], S["tlvs"])
+        if fail is None:
+            ok = q.ret == 0 and S["level"] == 3 and S["time"] == Ptr("SIGNTIME") and S["index"] == Ptr("NEWINDEX") and S["index_len"] == 3 and S["chains"] == ["AGGR", "CUR"] and S["tlvs"] == 2
+            what = "expected KSI_OK: level correction 5 - 2, the chain stamped and indexed (own + 2 inherited), first in the list, its TLV appended; source: status %s, %s" % (q.ret, state)
+        else:
+            ok = q.ret != 0 and S["level"] == 5 and S["time"] == Ptr("OLDTIME") and S["index"] == 0 and S["chains"] == ["CUR"] and S["tlvs"] == 1
+            what = "expected an error and everything as before (level correction 5, the chain's time &OLDTIME and no index, chains ['CUR'], 1 TLV element); source: status %s, %s" % (
+                hex(q.ret) if isinstance(q.ret, int) else q.ret, state)
+        chk.ob("C19.append", inst, ok, what, loc=fn.loc(), fn=fn, nontrivial=fail is not None)
